@@ -256,7 +256,7 @@ func TestC09_GrammarEdits(t *testing.T) {
 		nd := need{}
 		for i := 0; i < nEdits; i++ {
 			pool := opsFor(kind, false)
-			if chance(rt, "silentOp", 16) {
+			if chance(rt, "silentOp", 10) {
 				pool = opsFor(kind, true)
 			}
 			o := pool[intRange(rt, "op", 0, len(pool)-1)]
